@@ -344,5 +344,15 @@ def run_trio(scenario: Callable[[TrioEnv], Awaitable[Any]], cfg: Dict[str, Any],
                     c.stream.peer_reset()
                 nursery.cancel_scope.cancel()
 
-    trio.run(main, clock=trio.testing.MockClock(autojump_threshold=0))
+    try:
+        trio.run(main, clock=trio.testing.MockClock(autojump_threshold=0))
+    except BaseExceptionGroup as group:
+        # an exception raised by the scenario (e.g. an oracle's Violation) arrives wrapped by
+        # the nursery: hand the single underlying exception on
+        leaf: BaseException = group
+        while isinstance(leaf, BaseExceptionGroup) and len(leaf.exceptions) == 1:
+            leaf = leaf.exceptions[0]
+        if leaf is group:
+            raise
+        raise leaf
     return result
